@@ -379,13 +379,20 @@ def run(ctx: Ctx) -> None:
     # 2 + 3. real code
     logdir = tempfile.mkdtemp(prefix="pfverif_c05root_")
     try:
-        scen_names = ["reduce", "multi"] if quick else ["reduce", "partial", "multi", "chain", "gen", "twogen"]
+        # "multiplain+picker": the two-output function without MapSpec returns a mapping picked by a custom output_picker
+        scen_names = ["reduce", "multi", "multiplain+picker"] if quick else \
+            ["reduce", "partial", "multi", "chain", "gen", "twogen", "multiplain", "multiplain+picker"]
         storages = ["file_array", "dict"] if quick else ["file_array", "dict", "shared_memory_dict"]
         hist: list[dict] = []
         opsof: list[list] = []
         proto: list[dict] = []
         for sn in scen_names:
-            scen, _ = c03.export_schedules(ctx, sn, 1)
+            scen, _ = c03.export_schedules(ctx, sn.split("+")[0], 1)
+            if sn.endswith("+picker"):
+                scen = json.loads(json.dumps(scen))
+                for f in scen["desc"]["funcs"]:
+                    if len(f["outputs"]) > 1:
+                        f["picker"] = True
             pdesc = pmap.tla_desc_to_py(scen["desc"])
             for st in storages:
                 folder = tempfile.mkdtemp(prefix="rec_", dir=logdir)
